@@ -73,7 +73,7 @@ G == [mode |-> Mode, nodes |-> NodeSeq, edges |-> EdgeSeq, branches |-> BrSeq]
 Preds(n) == {e[1] : e \in {x \in edges : x[2] = n}} \cup {b.from : b \in {x \in brs : n \in x.ends}}      \* = C!CtrlPreds(G, n)
 Succs(n) == {m \in Nodes \cup {END} : n \in Preds(m)}
 \* (the operators below take the graph record as a parameter so that it is built once per evaluation)
-ParallelG(g) == \E x, y \in C!RunSet(g) : x # y /\ x \notin C!DepOf(g, y) /\ y \notin C!DepOf(g, x)
+ParallelG(g) == LET run == C!RunSet(g)  dep == [n \in run |-> C!DepOf(g, n)] IN \E x, y \in run : x # y /\ x \notin dep[y] /\ y \notin dep[x]
 LayeredG(g) == \A n \in Nodes \cup {END} : \A p, q \in Preds(n) : C!LevelOf(g, p) = C!LevelOf(g, q)
 WellFormedG(g) ==
   /\ \A n \in Nodes : Preds(n) # {}
@@ -98,15 +98,18 @@ Spec == Init /\ [][Next]_vars
 
 \* ---- completion orders ----
 Batch == Mode \in {"dag", "pregel"}
-PrecG(g, x, y) == IF Batch THEN C!LevelOf(g, x) < C!LevelOf(g, y) ELSE x \in C!DepOf(g, y)
-RECURSIVE LinExtG(_, _)
-LinExtG(g, S) == IF S = {} THEN {<<>>}
-                 ELSE UNION {{<<x>> \o s : s \in LinExtG(g, S \ {x})} : x \in {m \in S : \A y \in S : ~PrecG(g, y, m)}}
-ProbesG(g) == IF ~Batch THEN {}
-              ELSE {<<b, c>> \in C!RunSet(g) \X C!RunSet(g) : C!LevelOf(g, c) > C!LevelOf(g, b) /\ b \notin C!DepOf(g, c)
-                                                              /\ b \notin {f.n : f \in {fail[i] : i \in 1..Len(fail)}}}
-CaseG(g) == [mode |-> Mode, nodes |-> g.nodes, edges |-> g.edges, branches |-> g.branches, fail |-> fail,
-             orders |-> LinExtG(g, C!RunSet(g)), probes |-> ProbesG(g)]
+\* dep / lev are the rule's DepOf / LevelOf tabulated once per graph (functions over the running nodes)
+PrecT(dep, lev, x, y) == IF Batch THEN lev[x] < lev[y] ELSE x \in dep[y]
+RECURSIVE LinExtT(_, _, _)
+LinExtT(dep, lev, S) == IF S = {} THEN {<<>>}
+                        ELSE UNION {{<<x>> \o s : s \in LinExtT(dep, lev, S \ {x})} : x \in {m \in S : \A y \in S : ~PrecT(dep, lev, y, m)}}
+CaseG(g) == LET run == C!RunSet(g)
+                dep == [n \in run |-> C!DepOf(g, n)]
+                lev == [n \in run |-> C!LevelOf(g, n)]
+                failing == {f.n : f \in {fail[i] : i \in 1..Len(fail)}}
+            IN [mode |-> Mode, nodes |-> g.nodes, edges |-> g.edges, branches |-> g.branches, fail |-> fail,
+                orders |-> LinExtT(dep, lev, run),
+                probes |-> IF ~Batch THEN {} ELSE {<<b, c>> \in run \X run : lev[c] > lev[b] /\ b \notin dep[c] /\ b \notin failing}]
 Case == CaseG(G)
 Emit == phase = "done" => PrintT(<<"CASE", ToJson(Case)>>)
 ================================================================================
